@@ -92,6 +92,87 @@ func tierGroups(l *rulegen.Layout) []rules.TierPolicyGroups {
 	return out
 }
 
+// Key of the finding recorded in /verif/known_findings.json; emitted ONLY for the exact failing
+// situation (see passBitLeakVerdict), at most a few times per worker (the harness keeps 50
+// violation records per worker) and counted every time (known_pass_bit_leak).
+const keyPassLeak = "profiles:pass-bit-not-cleared-before-profile-chains"
+
+var knownEmitted = map[string]int{}
+
+func emitKnown(key string) bool {
+	knownEmitted[key]++
+	return knownEmitted[key] <= 4
+}
+
+// passBitLeakVerdict models the known finding: endpointIptablesChain clears the pass mark at
+// the start of every tier but not before the profile chains.  When the tiers end because a
+// pass RULE matched in the last tier that has policies for the direction, the profile chains
+// are entered with the pass mark set; a pass-action rule in a profile renders
+// [match -> set pass][pass set -> RETURN] and the second rule then fires whether or not the
+// rule matched, so the profile is cut off at its first pass-action rule.  ok is true only when
+// the pass mark is set on entry to the profiles; verdict is what the chains then produce.
+func passBitLeakVerdict(ep *refpolicy.EndpointPolicy, dir refpolicy.Direction, p *refpolicy.Packet, sets refpolicy.IPSets) (refpolicy.Verdict, bool) {
+	passBit := false
+	for _, t := range ep.Tiers {
+		pols := t.Ingress
+		if dir == refpolicy.Egress {
+			pols = t.Egress
+		}
+		if len(pols) == 0 {
+			continue
+		}
+		passBit = false
+		enforced := 0
+	policies:
+		for _, pol := range pols {
+			if pol.Staged {
+				continue
+			}
+			enforced++
+			rl := pol.Inbound
+			if dir == refpolicy.Egress {
+				rl = pol.Outbound
+			}
+			switch refpolicy.EvalRules(rl, p, sets).Action {
+			case refpolicy.Allow, refpolicy.Deny:
+				return 0, false // decided in the tiers: profiles not reached
+			case refpolicy.Pass:
+				passBit = true
+				break policies
+			}
+		}
+		if !passBit && enforced > 0 && !strings.EqualFold(t.DefaultAction, "Pass") {
+			return 0, false // end-of-tier deny
+		}
+	}
+	if !passBit {
+		return 0, false
+	}
+	for _, pr := range ep.Profiles {
+		rl := pr.Inbound
+		if dir == refpolicy.Egress {
+			rl = pr.Outbound
+		}
+	rules:
+		for _, r := range rl {
+			a, _ := refpolicy.ActionOf(r)
+			switch a {
+			case refpolicy.Pass:
+				break rules // pass mark already set: RETURN fires
+			case refpolicy.Allow:
+				if refpolicy.MatchRule(r, p, sets) {
+					return refpolicy.Allowed, true
+				}
+			case refpolicy.Deny:
+				if refpolicy.MatchRule(r, p, sets) {
+					return refpolicy.Denied, true
+				}
+			}
+		}
+	}
+	return refpolicy.Denied, true
+}
+
 type target struct {
 	name  string // what is evaluated, for witnesses
 	chain *generictables.Chain
@@ -359,6 +440,24 @@ func run(c *harness.Case) {
 				if d.Why == "policy" || d.Why == "profile" || d.Why == "end-of-tier" {
 					nontrivial = true
 				}
+				if bad != "" && tg.kind == refpolicy.KindNormal && got != d.Verdict {
+					// KNOWN FINDING?  Only the exact pass-bit-leak situation qualifies.
+					if leak, ok := passBitLeakVerdict(tg.ep, tg.dir, &p, sets); ok && leak == got {
+						c.Count("known_pass_bit_leak", 1)
+						if emitKnown(keyPassLeak) {
+							var chains strings.Builder
+							for _, n := range res.ChainsVisited() {
+								chains.WriteString(rs.DumpChain(n))
+							}
+							c.Violationf(keyPassLeak, detail(map[string]any{
+								"target": tg.name, "packet": p.String(), "reference": d.String(), "observed": got.String(),
+								"trace": res.TraceString(), "chains_visited": chains.String()}),
+								"%s v%d %s: the last tier ended with a pass rule, so the profile chains are entered with the pass mark set and each profile is cut off at its first pass-action rule: reference %s, rendered chains %s for packet %s",
+								fl, ipv, tg.name, d, got, p)
+						}
+						continue
+					}
+				}
 				if bad != "" {
 					if profileHasPass && tg.kind == refpolicy.KindNormal && (d.Why == "profile" || d.Why == "no-profile-match") {
 						bad += ":profile-has-pass-rule"
@@ -456,6 +555,7 @@ func main() {
 			"internal/nfsim walks the rendered text with kernel chain semantics (jump/goto/return, mark set/match); trusted interpreter",
 			"internal/refpolicy.Endpoint is the reference (written from the documentation); a profile 'pass' followed by a later allowing profile is not judged",
 			"rule-level matching is C08's subject: only simple rules (<= 2 positive match blocks, no protocol+notProtocol) are used here",
+			"known finding profiles:pass-bit-not-cleared-before-profile-chains is emitted only when the tiers ended through a matching pass rule (pass mark set on entry to the profile chains), the observed verdict differs from the reference and equals the verdict of the model 'every profile is cut off at its first pass-action rule'; emitted at most 4 times per worker, counted every time",
 			"failsafe chains are rendered with empty port lists (C40 covers failsafes); conntrack state is NEW for every packet",
 		},
 		Cases: cases,
